@@ -11,6 +11,7 @@ Line level, decided by vc/fstc for ALL well-formed texts (physical lines without
   E3  trailing blank lines:            lines(text + CRLF CRLF ...)                            == lines(text)
   E4  BOM / str-bytes:                 to_unicode decodes bytes with 'utf-8-sig' (shape) -- a leading BOM in bytes is dropped
 Name case, static relational obligation on the real loop body (a small taint analysis):
+  N2  the raw parameter name in Parameters.from_ical is only validated and stored in the caseless result (no comparison, no lookup)
   N1  the raw property / component name (`name`, and `vals` in the BEGIN / END branches) is never compared or used as a
       mapping key / set member unless upper-cased first (`uname`, `.upper()`) or handed to a caseless container
       (component_factory, types_factory.for_property, Component.add: C17); a component's `name` is set from the upper-cased text
@@ -147,6 +148,46 @@ def taint_obligation():
     return ob
 
 
+def param_name_taint_obligation():
+    """N2: in Parameters.from_ical the raw parameter name (the first target of `key, val = q_split(param, '=', ...)`) is only validated
+    and used as a key of the caseless result; any comparison / membership test / other lookup with it would depend on its letter case"""
+    mod, node = source.find("parser:Parameters.from_ical")
+    ob = Obligation(f"{PID}.N2.parameter_names_are_only_used_case_insensitively", "parser:Parameters.from_ical", "fin", UNDECIDED, lines=source.lines_of(node))
+    if node is None:
+        ob.detail = "function not found"
+        return ob
+    raw = set()
+    for n in ast.walk(node):
+        if isinstance(n, ast.Assign) and isinstance(n.targets[0], ast.Tuple) and isinstance(n.value, ast.Call) and ast.unparse(n.value.func) == "q_split" \
+                and len(n.value.args) >= 2 and isinstance(n.value.args[1], ast.Constant) and n.value.args[1].value == "=":
+            if n.targets[0].elts and isinstance(n.targets[0].elts[0], ast.Name):
+                raw.add(n.targets[0].elts[0].id)
+    if not raw:
+        ob.detail = "`key, val = q_split(param, '=', ...)` not found"
+        return ob
+    result_names = {t.id for n in ast.walk(node) if isinstance(n, ast.Assign) and isinstance(n.value, ast.Call) and ast.unparse(n.value.func) == "cls"
+                    for t in n.targets if isinstance(t, ast.Name)}
+    bad = []
+    for n in ast.walk(node):
+        if isinstance(n, ast.Compare):
+            for operand in [n.left] + list(n.comparators):
+                if isinstance(operand, ast.Name) and operand.id in raw:
+                    bad.append((n.lineno, f"compares the raw parameter name: `{ast.unparse(n)}`"))
+        if isinstance(n, ast.Subscript) and isinstance(n.slice, ast.Name) and n.slice.id in raw and not (isinstance(n.value, ast.Name) and n.value.id in result_names):
+            bad.append((n.lineno, f"uses the raw parameter name as a key of something that is not the caseless result: `{ast.unparse(n)}`"))
+        if isinstance(n, ast.Call) and isinstance(n.func, ast.Attribute) and n.func.attr in ("get", "startswith", "endswith", "index", "count") and \
+                (n.args and isinstance(n.args[0], ast.Name) and n.args[0].id in raw or isinstance(n.func.value, ast.Name) and n.func.value.id in raw):
+            bad.append((n.lineno, f"looks at the raw parameter name: `{ast.unparse(n)}`"))
+    if bad:
+        ob.status = REFUTED
+        ob.detail = f"line {bad[0][0]}: {bad[0][1]}" + (f" (+{len(bad) - 1} more)" if len(bad) > 1 else "")
+        ob.shape_only = True
+    else:
+        ob.status = PROVED
+        ob.detail = f"the raw parameter name ({', '.join(sorted(raw))}) is only validated and stored in the caseless result"
+    return ob
+
+
 def run(rep: common.Report):
     findings = common.findings_for(PID)
     rep.trust("engine: vc/fstc (regex transducers of uFOLD / NEWLINE compiled from the source, cross-checked in C06)",
@@ -207,6 +248,8 @@ def run(rep: common.Report):
     rep.add(ob)
     t = taint_obligation()
     rep.add(t)
+    rep.add(param_name_taint_obligation())
+    rep.functions.add("parser:Parameters.from_ical")
     from props import C09_bnd
     for ob in rep.obligations:
         if ob.status == REFUTED and getattr(ob, "shape_only", False) and ob.witness is None:
